@@ -76,8 +76,14 @@ PROG_Steps == <<
   Cc("c", I(10), <<<<"W", I(3)>>, <<"N", One>>, <<"W", One>>>>),       \* (a substance listed twice adds up)
   Tr("c", "-", "p", "A2", One, "L"), Tr("a", "-", "c", "-", I(2), "L"),
   Cs("sol", "N", "W", One, "mol", I(9), "L"), Cs("sol", "N", "a", I(3), "g", I(6), "L"), Tr("sol", "-", "p", "B1", One, "L"),
-  Cf("a", "dil", "N", "W", R(1, 10), "mol", "L", I(4), "L"), Tr("dil", "-", "p", "B2", One, "L")>>
+  Cf("a", "dil", "N", "W", R(1, 10), "mol", "L", I(4), "L"), Tr("dil", "-", "p", "B2", One, "L"),
+  Tr("a", "-", "c", "-", I(4), "L")>>        \* overflows the 10-unit container the recipe itself created (7 + 4): bake must refuse
 PROG_Alphabet == PROG_Steps \o <<Ss("s1"), Es("s1"), Ss("s2"), Bk>>
+\* STAGE: refused bakes in the middle of a program.  p is declared explicitly and used late, so that a bake in between is
+\* refused (declared but unused) and must leave the open stage open: the steps added afterwards belong to it (C09, C15, C16)
+STAGE_Alphabet == <<Us("p"), Ss("s1"), Es("s1"), Tr("a", "-", "b", "-", One, "L"), Tr("a", "-", "p", "row1", One, "L"), Bk,
+                    Rm("b", "-", "E"), Ss("s2")>>
+STAGE_Small == SubSeq(STAGE_Alphabet, 1, 6)
 \* a smaller alphabet for deep random walks
 PROG_Core == <<PROG_Steps[1], PROG_Steps[2], PROG_Steps[3], PROG_Steps[4], PROG_Steps[8], PROG_Steps[10], PROG_Steps[11], PROG_Steps[12],
                PROG_Steps[13], PROG_Steps[14], PROG_Steps[17], PROG_Steps[19], PROG_Steps[22], PROG_Steps[23], PROG_Steps[25], PROG_Steps[27], Ss("s1"), Es("s1"), Ss("s2"), Es("s2"), Bk>>
